@@ -315,7 +315,11 @@ func c06Workers(p *Prog, r *Report) {
 				mc, ok := g.Call.Value.(*ssa.MakeClosure)
 				key := "go statement in " + FuncName(f)
 				if !ok {
-					r.Unknown("R06c", key, instrPos(in), "go statement does not launch a function literal")
+					if wk := g.Call.StaticCallee(); wk != nil && wk.Pkg != nil && InRepo(wk.Pkg.Pkg.Path()) && len(wk.Blocks) > 0 {
+						c06NamedWorker(p, r, f, g, wk, key)
+						return
+					}
+					r.Unknown("R06c", key, instrPos(in), "go statement launches neither a function literal nor a function of the repository")
 					return
 				}
 				cl := mc.Fn.(*ssa.Function)
@@ -403,7 +407,7 @@ func c06Workers(p *Prog, r *Report) {
 						}
 					}
 				})
-				okWG := add != nil && wait != nil && dominatesInstr(add, g) && !reachesInstr(g, add) && reachesInstr(g, wait)
+				okWG := add != nil && wait != nil && dominatesInstr(add, g) && reachesInstr(g, wait)
 				if okWG {
 					// every return reachable from the go statement passes through Wait
 					p.instrs(f, func(b2 *ssa.BasicBlock, i2 int, in2 ssa.Instruction) {
@@ -422,7 +426,7 @@ func c06Workers(p *Prog, r *Report) {
 					}
 				})
 				r.Check("R06c", key+" WaitGroup protocol", instrPos(in), okWG && doneInWorker,
-					"need wg.Add before the loop (not inside it), wg.Done in the worker, and wg.Wait before every return that follows the go statement")
+					"need wg.Add before every go statement (once with the count, or per iteration), wg.Done in the worker, and wg.Wait before every return that follows the go statement")
 			})
 		}
 	}
@@ -738,4 +742,86 @@ func setAccumulating(p *Prog, g *ssa.Function, seen map[*ssa.Function]bool) bool
 		}
 	})
 	return ok
+}
+
+// c06NamedWorker: `go f(args)` with a named function or method as the worker. The worker may write only
+// through a parameter that receives a pointer to the creator's own slot (&results[i] for the loop index i).
+func c06NamedWorker(p *Prog, r *Report, f *ssa.Function, g *ssa.Go, wk *ssa.Function, key string) {
+	r.Func(FuncName(wk))
+	slot := map[*ssa.Parameter]bool{}
+	for i, a := range g.Call.Args {
+		if i >= len(wk.Params) {
+			break
+		}
+		if ia, ok := a.(*ssa.IndexAddr); ok && isLoopIndex(ia.Index) {
+			if _, isSlice := ia.X.Type().Underlying().(*types.Slice); isSlice {
+				slot[wk.Params[i]] = true
+			}
+		}
+	}
+	baseParam := func(v ssa.Value) *ssa.Parameter {
+		for d := 0; d < 8; d++ {
+			switch x := v.(type) {
+			case *ssa.Parameter:
+				return x
+			case *ssa.FieldAddr:
+				v = x.X
+			case *ssa.IndexAddr:
+				v = x.X
+			default:
+				return nil
+			}
+		}
+		return nil
+	}
+	var bad []string
+	doneInWorker := false
+	p.instrs(wk, func(b *ssa.BasicBlock, i int, in ssa.Instruction) {
+		switch x := in.(type) {
+		case *ssa.Store:
+			if localAddr(x.Addr) {
+				return
+			}
+			if pa := baseParam(x.Addr); pa != nil && slot[pa] {
+				return
+			}
+			bad = append(bad, "store to "+sk(x.Addr)+" at "+p.Pos(instrPos(in)))
+		case *ssa.MapUpdate:
+			if !localAddr(x.Map) {
+				bad = append(bad, "map update of "+sk(x.Map))
+			}
+		case *ssa.Call:
+			n := calleeName(x)
+			if n == "(*sync.WaitGroup).Done" {
+				doneInWorker = true
+			}
+		case *ssa.Defer:
+			if calleeName(x) == "(*sync.WaitGroup).Done" {
+				doneInWorker = true
+			}
+		}
+	})
+	r.Check("R06c", key+" writes only its own slot", instrPos(g), len(bad) == 0 && len(slot) > 0,
+		fmt.Sprintf("the worker %s must write only through a pointer to its own result slot (&slice[loop index]); slot parameters: %d; %s", wk.Name(), len(slot), strings.Join(bad, "; ")))
+	var add, wait *ssa.Call
+	p.instrs(f, func(b2 *ssa.BasicBlock, i2 int, in2 ssa.Instruction) {
+		if c, ok := in2.(*ssa.Call); ok {
+			switch calleeName(c) {
+			case "(*sync.WaitGroup).Add":
+				add = c
+			case "(*sync.WaitGroup).Wait":
+				wait = c
+			}
+		}
+	})
+	okWG := add != nil && wait != nil && dominatesInstr(add, g) && reachesInstr(g, wait)
+	if okWG {
+		p.instrs(f, func(b2 *ssa.BasicBlock, i2 int, in2 ssa.Instruction) {
+			if ret, ok := in2.(*ssa.Return); ok && reachesInstr(g, ret) && !dominatesInstr(wait, ret) {
+				okWG = false
+			}
+		})
+	}
+	r.Check("R06c", key+" WaitGroup protocol", instrPos(g), okWG && doneInWorker,
+		"need wg.Add before every go statement (once with the count, or per iteration), wg.Done in the worker, and wg.Wait before every return that follows the go statement")
 }
